@@ -713,6 +713,22 @@ func (g *Gen) NextStep(r *Runner) *Step {
 	if g.OutOfOrder && !r.Deaf && !g.NoSync {
 		add(2, func() *Step { return &Step{Op: "deaf"} })
 	}
+	if r.Deaf {
+		var busy []string
+		for _, k := range r.M.PodKeys() {
+			if p := r.M.Pods[k]; p.State != StRemoved {
+				for _, c := range r.M.PodCtrs(k) {
+					if c.Live() {
+						busy = append(busy, k)
+						break
+					}
+				}
+			}
+		}
+		if len(busy) > 0 {
+			add(8, func() *Step { return &Step{Op: "killpod", Pod: sysgen.Pick(g.R, busy)} })
+		}
+	}
 	total := 0
 	for _, c := range cands {
 		total += c.w
